@@ -51,21 +51,31 @@ Definition digit_val (c : N) : option N :=
   else if (65 <=? c) && (c <=? 90) then Some (c - 55)
   else None.
 
-(* digits of [s] in [base] (no '_' : underscores are only legal with base 0) *)
-Fixpoint parse_digits (base : N) (s : bytes) (acc : N) : option N :=
+(* ParseUint's loop: left to right, the first event wins -- a character that is not a digit of [base]
+   (syntax error; no '_' : underscores are only legal with base 0), or a prefix whose value exceeds
+   maxVal = 2^bitSize - 1 (range error, raised before the remaining characters are looked at) *)
+Inductive uparse := USyntax | URange | UVal (n : N).
+Fixpoint parse_uint (base maxVal : N) (s : bytes) (acc : N) : uparse :=
   match s with
-  | [] => Some acc
+  | [] => UVal acc
   | c :: t =>
       match digit_val c with
-      | Some d => if d <? base then parse_digits base t (acc * base + d) else None
-      | None => None
+      | Some d =>
+          if d <? base then
+            let n := acc * base + d in
+            if maxVal <? n then URange else parse_uint base maxVal t n
+          else USyntax
+      | None => USyntax
       end
   end.
 
 (* strconv.ParseInt(s, base, bitSize) for an explicit base 2..36 (base 0 with
    its prefixes/underscores is not modelled: [Panic] marks "outside the model").
    Err = *NumError (syntax or range); the clamped value Go returns with a range
-   error is not modelled. *)
+   error is not modelled.  ParseInt drops ParseUint's range error and re-checks the clamped
+   value maxVal against cutoff = 2^(bitSize-1): always out of range, except for bitSize 1 and a
+   minus sign, where maxVal = cutoff = 1 and Go returns -1 with a nil error (observed by the
+   correspondence run: ParseInt("-5a8b3", 10, 1) = -1, nil). *)
 Definition ParseInt (s : bytes) (base bitSize : N) : outcome Z :=
   if (base <? 2) || (36 <? base) then (if base =? 0 then Panic else Err) else
   if 64 <? bitSize then Err else
@@ -78,13 +88,11 @@ Definition ParseInt (s : bytes) (base bitSize : N) : outcome Z :=
       match ds with
       | [] => Err
       | _ =>
-          match parse_digits base ds 0 with
-          | None => Err
-          | Some n =>
-              if neg then (if n <=? 2 ^ (bits - 1) then Ok (- Z.of_N n)%Z
-                           else if bits =? 1 then Ok (-1)%Z  (* Go quirk: ParseUint clamps to maxVal = 1 = cutoff and
-                                                                ParseInt drops its range error *)
-                           else Err)
+          match parse_uint base (2 ^ bits - 1) ds 0 with
+          | USyntax => Err
+          | URange => if neg && (bits =? 1) then Ok (-1)%Z else Err
+          | UVal n =>
+              if neg then (if n <=? 2 ^ (bits - 1) then Ok (- Z.of_N n)%Z else Err)
               else (if n <? 2 ^ (bits - 1) then Ok (Z.of_N n) else Err)
           end
       end
